@@ -1,13 +1,14 @@
 """C02 — JSON-RPC discipline.  Proof: Cjet.Props.C02 over the daemon model; tie: whole daemon on the simulated kernel vs
 the model (projection: connection, id, result|error, error code, order) + the C02 monitor on the implementation's trace."""
 from vlib import common as C
-from vlib import dcheck
+from vlib import dcheck, directed
 
 LEVEL = "proof"
 
 
 def run(ctx, out):
     dcheck.run_property(ctx, out, "C02", "mon_c02", n_quick=400, n_thorough=6000,
-                        gen_kw=dict(ws_share=0.35, batches=0.2, malformed=0.06))
+                        gen_kw=dict(ws_share=0.35, batches=0.2, malformed=0.06),
+                        directed=directed.regressions())
     out.assumptions += ["cJSON parse/print are outside the model; the generator's JSON values are what cJSON yields for the text sent",
                         "'answered' = handed to the connection's send function (delivery of the bytes is C10)"]
